@@ -99,3 +99,28 @@ prop(
     level_note="coverage-blind generator (no libFuzzer offline for this dependency tree): reach is the grammar, the live-answer mutation and the coverage matrix reported in the evidence",
     death_is_violation=True,
 )
+
+IDX_RULE = ("one evaluation = one compared cell / history entry of the final RPC answers (all pages walked) against the reference indexer, one convergence judgement, "
+            "or one set_scripts / reported-number model check; a cell = (user-action flags of the history, chain length class) / set_scripts command shape")
+
+prop(
+    "C03", "exploration", rule=IDX_RULE,
+    sizes=tiers(16, 30, 70, 16, 1500, 900, min_evals=3000, min_cells=8),
+    technique="runtime monitoring: reference indexer (independent UTXO/history model over the generated chain) compared with get_cells / get_transactions / get_cells_capacity after bounded-progress convergence",
+    level_text="After generated sync histories (transaction graphs with same-block chains, multi-script and typed cells; 1-4 registered scripts with different start numbers; random filter batch boundaries) interleaved with fetch_transaction / fetch_header calls, partial set_scripts of new scripts, restarts and chain growth, every cell returned is live on the chain with exactly the chain's out-point, output, data, block number and tx index, every live cell and history entry in (start, tip] is returned, and get_cells_capacity equals the sum.",
+    level_note="GCS false negatives are excluded by the library; convergence is bounded (250 rounds, chain keeps growing)",
+)
+prop(
+    "C04", "exploration", rule=IDX_RULE,
+    sizes=tiers(16, 30, 70, 16, 1500, 900, min_evals=3000, min_cells=8),
+    technique="runtime monitoring: reference indexer on the new branch + bounded-progress convergence oracle + store-unchanged monitor until the documented long-fork abort",
+    level_text="After generated fork switches (fork point below / at / above last-N, arriving mid filter batch or mid download, with matched blocks pending, after restarts) the RPC answers equal the reference index of the new branch within 250 rounds of honest syncing; for forks that share no remembered header the index and stored tip stay byte-identical until the client stops with the documented long-fork panic.",
+    level_note="check point interval > last-N as in production; unbounded 'never stuck' restated as bounded progress",
+)
+prop(
+    "C09", "exploration", rule=IDX_RULE,
+    sizes=tiers(16, 30, 70, 16, 1500, 900, min_evals=3000, min_cells=10),
+    technique="runtime monitoring: README map model for the script set, matched-block emptiness check after every set_scripts, reported-number-implies-indexed rule, reference indexer at convergence",
+    level_text="For generated sequences of set_scripts (all / partial / delete, empty lists, duplicates, start numbers above and below current progress, re-adding deleted scripts) issued at random points of an ongoing sync (with matched blocks pending or partly downloaded): get_scripts equals the README model right after each call, pending matched blocks are discarded, no script reports a filtered height while a block at or below it that touches it is not indexed, and after convergence every kept script has its complete history and no phantom cell.",
+    level_note="inputs whose previous output predates a script's start number cannot be attributed by design and are reported under C03",
+)
